@@ -12,6 +12,63 @@ if REPO not in sys.path:
     sys.path.insert(0, REPO)
 os.environ.setdefault("ASYNCSTDLIB_VERIF", "1")
 
+# ---------------------------------------------------------------------------------------------
+# asyncio tripwire, installed BEFORE the library is imported
+#
+# The library may bind asyncio names at import time (`from asyncio import get_running_loop, shield, Lock`), which a
+# patch applied later cannot see.  So the recording wrappers go into the asyncio modules first; the library then binds
+# the wrappers.  They record only while ASYNCIO_ARMED[0] is set (C17 arms them around hand-driven operations, where no
+# event loop exists and the library has no business asking for one); otherwise they are transparent.
+import asyncio  # noqa: E402
+import asyncio.events, asyncio.futures, asyncio.locks, asyncio.tasks, asyncio.queues  # noqa: E401,E402
+
+ASYNCIO_TRIPS = []
+ASYNCIO_ARMED = [False]
+
+
+def _install_asyncio_tripwire():
+    funcs = {"asyncio.events": ["get_running_loop", "_get_running_loop", "get_event_loop", "new_event_loop"],
+             "asyncio.tasks": ["current_task", "sleep", "ensure_future", "create_task", "shield", "wait_for", "gather", "wait",
+                               "as_completed"],
+             "asyncio.futures": ["wrap_future"]}
+    classes = {"asyncio.locks": ["Lock", "Event", "Condition", "Semaphore", "BoundedSemaphore"],
+               "asyncio.queues": ["Queue"]}
+    for modname, names in funcs.items():
+        mod = sys.modules[modname]
+        for name in names:
+            orig = getattr(mod, name, None)
+            if orig is None or getattr(orig, "_verif_tripwire", False):
+                continue
+
+            def wrapper(*a, _orig=orig, _n=modname + "." + name, **k):
+                if ASYNCIO_ARMED[0]:
+                    ASYNCIO_TRIPS.append(_n)
+                return _orig(*a, **k)
+            wrapper._verif_tripwire = True
+            wrapper.__name__ = name
+            setattr(mod, name, wrapper)
+            if getattr(asyncio, name, None) is orig:
+                setattr(asyncio, name, wrapper)
+    for modname, names in classes.items():
+        mod = sys.modules[modname]
+        for name in names:
+            orig = getattr(mod, name, None)
+            if orig is None or getattr(orig, "_verif_tripwire", False):
+                continue
+
+            def __init__(self, *a, _orig=orig, _n=modname + "." + name, **k):
+                if ASYNCIO_ARMED[0]:
+                    ASYNCIO_TRIPS.append(_n)
+                _orig.__init__(self, *a, **k)
+            sub = type(name, (orig,), {"__init__": __init__, "_verif_tripwire": True, "__module__": orig.__module__})
+            setattr(mod, name, sub)
+            if getattr(asyncio, name, None) is orig:
+                setattr(asyncio, name, sub)
+
+
+if not os.environ.get("VERIF_NO_ASYNCIO_TRIPWIRE"):
+    _install_asyncio_tripwire()
+
 import asyncstdlib  # noqa: E402
 
 assert os.path.realpath(asyncstdlib.__file__).startswith(os.path.realpath(REPO) + os.sep), (
@@ -49,15 +106,16 @@ def user_exc(eid):
     return cls(eid)
 
 
-class UserBaseExc(BaseException):
-    """An injected cancellation-like fault (not an Exception subclass)."""
+class UserBaseExc(asyncio.CancelledError):
+    """An injected cancellation: a real `asyncio.CancelledError` (a BaseException that is not an Exception), so code
+    that singles out cancellation by type meets it."""
 
     def __init__(self, eid):
         super().__init__(eid)
         self.eid = eid
 
 
-class Interrupt(BaseException):
+class Interrupt(asyncio.CancelledError):
     """thrown in by the driver at a suspension point; a resilient awaitable catches it and carries on"""
 
     def __init__(self, eid):
@@ -149,8 +207,8 @@ def drive(coro, reply=None, max_steps=20000):
 DEFERRED = []
 
 
-def _defer_finalizer(agen):
-    DEFERRED.append(agen)
+def _defer_finalizer(agen, _park=DEFERRED.append):   # bound early: survives module teardown at interpreter exit
+    _park(agen)
 
 
 if not os.environ.get("VERIF_NO_ASYNCGEN_HOOKS"):
